@@ -33,6 +33,7 @@ TRIGGERS = [":keyword", ":param **kwargs:", "KWARGS!", "@kw", ":keyword"]
 
 class Prop(BaseProp):
     ID = "C03"
+    PIPELINES = True      # a fixed share of the cases goes through cminx.main (-o and stdout) instead of the Documenter
     ANCHORS = ['cminx.aggregator:DocumentationAggregator.process_function', 'cminx.aggregator:DocumentationAggregator.process_macro', 'cminx.aggregator:DocumentationAggregator.process_cmake_parse_arguments', 'cminx.documentation_types:FunctionDocumentation.process', 'cminx.documentation_types:MacroDocumentation.process']
     LEVEL = "exploration"
     RULE = ("modules of function/macro definitions (0-4 parameters built as prefix+core+suffix for a strip-pattern "
